@@ -69,6 +69,15 @@ Qed.
 
 Section Proofs.
   Variable fn : N -> list pyval -> res pyval.
+  (* the integer literals of convert_dict as the source has them; the statement's version arithmetic
+     needs the slice to start at version-1 and every step to add 1 *)
+  Variable p : cd_params.
+  Hypothesis Hp : cd_params_ok p = true.
+
+  Lemma p_offset : cd_slice_offset p = 1.
+  Proof. unfold cd_params_ok in Hp. apply andb_true_iff in Hp as [H _]. apply Z.eqb_eq in H. exact H. Qed.
+  Lemma p_inc : cd_bump_inc p = 1.
+  Proof. unfold cd_params_ok in Hp. apply andb_true_iff in Hp as [_ H]. apply Z.eqb_eq in H. exact H. Qed.
 
   Notation vget d := (dict_get d version_key).
 
@@ -162,26 +171,26 @@ Section Proofs.
 
   Lemma step_version m d d' z :
     keeps_version m = true -> has_version d z ->
-    step fn (Ok d) m = Ok d' -> has_version d' (z + 1).
+    step fn p (Ok d) m = Ok d' -> has_version d' (z + 1).
   Proof.
     unfold step, has_version. simpl. intros Hk Hv H.
     destruct (convert fn m d) as [c|e] eqn:E; simpl in H; [|discriminate].
     pose proof (convert_keeps _ _ _ Hk E) as Hc. rewrite Hv in Hc.
-    unfold bump_version in H. rewrite Hc in H. inversion H; subst.
+    unfold bump_version in H. rewrite Hc, p_inc in H. inversion H; subst.
     unfold version_key. apply dict_get_set_same.
   Qed.
 
-  Lemma fold_step_raise l e : fold_left (step fn) l (Raise e) = Raise e.
+  Lemma fold_step_raise l e : fold_left (step fn p) l (Raise e) = Raise e.
   Proof. induction l as [|m t IH]; simpl; [reflexivity | exact IH]. Qed.
 
   Lemma fold_step_version l : forall d d' z,
       forallb keeps_version l = true -> has_version d z ->
-      fold_left (step fn) l (Ok d) = Ok d' -> has_version d' (z + Z.of_nat (length l)).
+      fold_left (step fn p) l (Ok d) = Ok d' -> has_version d' (z + Z.of_nat (length l)).
   Proof.
     induction l as [|m t IH]; intros d d' z Hk Hv H; cbn [fold_left length forallb] in *.
     - inversion H; subst. replace (z + Z.of_nat 0) with z by lia. exact Hv.
     - apply andb_true_iff in Hk as [Hm Hk].
-      destruct (step fn (Ok d) m) as [d1|e] eqn:E.
+      destruct (step fn p (Ok d) m) as [d1|e] eqn:E.
       + pose proof (step_version _ _ _ _ Hm Hv E) as Hv1.
         pose proof (IH _ _ _ Hk Hv1 H) as R.
         replace (z + Z.of_nat (S (length t))) with (z + 1 + Z.of_nat (length t)) by lia.
@@ -207,16 +216,18 @@ Section Proofs.
   (* "applies exactly the mappings from d's version onward, in order" *)
   Lemma convert_dict_suffix d maps z :
     has_version d z -> 1 <= z ->
-    convert_dict fn d maps = fold_left (step fn) (skipn (Z.to_nat (z - 1)) maps) (Ok d).
+    convert_dict fn p d maps = fold_left (step fn p) (skipn (Z.to_nat (z - 1)) maps) (Ok d).
   Proof.
-    intros Hv Hz. unfold convert_dict, start_index. unfold has_version in Hv. rewrite Hv. simpl.
-    unfold py_slice_from. destruct (0 <=? z - 1) eqn:E; [reflexivity|]. apply Z.leb_gt in E. lia.
+    intros Hv Hz. unfold convert_dict, start_index. unfold has_version in Hv. rewrite Hv, p_offset. simpl.
+    unfold py_slice_from. destruct (0 <=? z - 1) eqn:E; [|apply Z.leb_gt in E; lia].
+    destruct (Z.of_nat (length maps) <=? z - 1) eqn:E2; [|reflexivity].
+    apply Z.leb_le in E2. rewrite skipn_all2 by lia. reflexivity.
   Qed.
 
   Lemma convert_dict_version d maps z d' :
     forallb keeps_version maps = true ->
     has_version d z -> 1 <= z <= Z.of_nat (length maps) + 1 ->
-    convert_dict fn d maps = Ok d' ->
+    convert_dict fn p d maps = Ok d' ->
     has_version d' (Z.of_nat (length maps) + 1).
   Proof.
     intros Hk Hv Hz H. rewrite (convert_dict_suffix _ _ _ Hv) in H by lia.
@@ -228,7 +239,7 @@ Section Proofs.
 
   Lemma convert_dict_latest d maps z :
     has_version d z -> Z.of_nat (length maps) + 1 <= z ->
-    convert_dict fn d maps = Ok d.
+    convert_dict fn p d maps = Ok d.
   Proof.
     intros Hv Hz. rewrite (convert_dict_suffix _ _ _ Hv) by lia.
     rewrite skipn_all2 by lia. reflexivity.
@@ -257,8 +268,8 @@ Section Proofs.
     forallb keeps_version maps = true ->
     has_version d z -> 1 <= z ->
     (k <= length maps)%nat ->
-    convert_dict fn d (firstn k maps) = Ok d1 ->
-    convert_dict fn d1 maps = convert_dict fn d maps.
+    convert_dict fn p d (firstn k maps) = Ok d1 ->
+    convert_dict fn p d1 maps = convert_dict fn p d maps.
   Proof.
     intros Hk Hv Hz Hkl H1.
     set (i := Z.to_nat (z - 1)).
@@ -278,7 +289,7 @@ Section Proofs.
         exact R. }
       rewrite (convert_dict_suffix d1 maps _ Hv1) by lia.
       replace (Z.to_nat (Z.of_nat k + 1 - 1)) with k by lia.
-      transitivity (fold_left (step fn)
+      transitivity (fold_left (step fn p)
                       (firstn (k - i) (skipn i maps) ++ skipn (k - i) (skipn i maps)) (Ok d)).
       + rewrite fold_left_app, H1, skipn_skipn_add.
         replace (k - i + i)%nat with k by lia. reflexivity.
@@ -288,7 +299,7 @@ Section Proofs.
   Lemma convert_dict_idempotent d maps z d' :
     forallb keeps_version maps = true ->
     has_version d z -> 1 <= z <= Z.of_nat (length maps) + 1 ->
-    convert_dict fn d maps = Ok d' -> convert_dict fn d' maps = Ok d'.
+    convert_dict fn p d maps = Ok d' -> convert_dict fn p d' maps = Ok d'.
   Proof.
     intros Hk Hv Hz H. eapply convert_dict_latest.
     - eapply convert_dict_version; eauto.
@@ -298,8 +309,8 @@ Section Proofs.
   Lemma deser_versioned_any_version {T} (deser : dict -> res T) d maps z d' :
     forallb keeps_version maps = true ->
     has_version d z -> 1 <= z <= Z.of_nat (length maps) + 1 ->
-    convert_dict fn d maps = Ok d' ->
-    deser_versioned fn deser maps d = deser_versioned fn deser maps d'.
+    convert_dict fn p d maps = Ok d' ->
+    deser_versioned fn p deser maps d = deser_versioned fn p deser maps d'.
   Proof.
     intros Hk Hv Hz H. unfold deser_versioned.
     rewrite (convert_dict_idempotent _ _ _ _ Hk Hv Hz H), H. reflexivity.
